@@ -79,5 +79,6 @@ ColorsProper(ce, adj) == \A e \in adj : GroupOfPos(e[1], ce) # GroupOfPos(e[2], 
 IsPermutationOf(elems, selected) ==
   /\ Len(elems) = Cardinality(selected) /\ {elems[k] : k \in 1..Len(elems)} = selected
 
-MaxColorSize(ce) == LET S == {At(ce, k + 1) - At(ce, k) : k \in 0..(Len(ce) - 2)} IN CHOOSE m \in S : \A x \in S : x <= m
+\* (total: a colour table without colours has maximal colour size 0)
+MaxColorSize(ce) == LET S == {At(ce, k + 1) - At(ce, k) : k \in 0..(Len(ce) - 2)} IN IF S = {} THEN 0 ELSE CHOOSE m \in S : \A x \in S : x <= m
 =============================================================================
